@@ -453,7 +453,27 @@ func classifyValueAt(v ssa.Value, at *ssa.BasicBlock) retClass {
 			}
 		}
 		if x.Common().IsInvoke() && x.Common().Method != nil && x.Common().Method.FullName() == "(context.Context).Err" {
-			return rcA // only ever returned after <-ctx.Done() in this code base; checked by C13-R4
+			// ctx.Err() is non-nil only once the context is done: returned from the case of a
+			// select (the <-ctx.Done() case) or behind a test of ctx.Err() itself it is an error
+			// return; anywhere else it may well be nil ("return ctx.Err()" on a path chosen by
+			// something other than this context reports success while the context is alive)
+			if at != nil {
+				for d := at; d != nil; d = d.Idom() {
+					if d.Comment == "select.body" {
+						return rcA
+					}
+					if id := d.Idom(); id != nil && len(id.Instrs) > 0 {
+						if ifi, ok := id.Instrs[len(id.Instrs)-1].(*ssa.If); ok && len(id.Succs) == 2 && id.Succs[0] == d {
+							if b, ok := ifi.Cond.(*ssa.BinOp); ok && b.Op == token.NEQ {
+								if c2, ok := b.X.(*ssa.Call); ok && c2.Common().IsInvoke() && c2.Common().Method != nil && c2.Common().Method.FullName() == "(context.Context).Err" {
+									return rcA
+								}
+							}
+						}
+					}
+				}
+			}
+			return rcU
 		}
 	case *ssa.UnOp:
 		if x.Op == token.MUL {
